@@ -1,8 +1,11 @@
 #!/bin/sh
-# tools/take_round.sh <round dir prefix, e.g. r3> <ID> <pkg> <first new index, e.g. 5> : confirm both changes of an agent, import them as m<idx>, m<idx+1>, remove its worktree
-r="$1"; id="$2"; pkg="$3"; k="$4"
+# tools/take_round.sh <round dir prefix, e.g. r3> <ID> <pkg | auto> <first new index, e.g. 5> : confirm both changes of an agent, import them as
+# m<idx>, m<idx+1>, remove its worktree. pkg = directory under pkg/go the demo goes into; auto = read demo_package_dir from each meta.json
+r="$1"; id="$2"; pkg0="$3"; k="$4"
 for m in 1 2; do
   src=/tmp/seedout/$r-$id/m$m
+  pkg="$pkg0"
+  [ "$pkg" = auto ] && pkg=$(python3 -c "import json;print(json.load(open('$src/meta.json')).get('demo_package_dir','pkg/go/graph').replace('pkg/go/','').strip('/'))")
   res=$(/verif/tools/confirm_seed.sh $src $pkg 2>&1 | tail -1)
   echo "$res"
   case "$res" in
